@@ -73,10 +73,63 @@ pub fn check_exact(rep: &mut Report, it: &Item) {
         if refcbor::diag_normalise(&got) != refcbor::diag_normalise(&want) {
             fail(rep, &format!("display|notation|{}", it.class()), format!("rendered {:?}, the documented notation gives {:?}", trunc(&got), trunc(&want)), &enc);
         } else {
+            if enc.len() <= 24 {
+                spec_law(rep, &enc, &got);
+            }
             rep.count("exact rendering compared");
             if rep.want_sample() && enc.len() > 5 && enc.len() < 30 {
                 rep.sample(J::obj().with("input", J::s(hex(&enc))).with("rendering", J::s(got)));
             }
+        }
+    }
+}
+
+/// The notation does not depend on the caller's format spec: with width / precision / fill / sign
+/// flags the output is either unchanged or the whole rendering padded / truncated the way
+/// `Formatter::pad` does it for a string (both are legitimate `Display` behaviour); per-token
+/// padding, injected signs or truncated strings inside the notation are not.
+fn spec_law(rep: &mut Report, enc: &[u8], plain: &str) {
+    let pad = |prec: Option<usize>, width: usize, fill: char, align: u8| -> String {
+        let t: String = match prec {
+            Some(p) => plain.chars().take(p).collect(),
+            None => plain.to_string(),
+        };
+        let n = t.chars().count();
+        if n >= width {
+            return t;
+        }
+        let k = width - n;
+        let (l, r) = match align {
+            0 => (0, k),
+            1 => (k, 0),
+            _ => (k / 2, k - k / 2),
+        };
+        format!("{}{}{}", std::iter::repeat(fill).take(l).collect::<String>(), t, std::iter::repeat(fill).take(r).collect::<String>())
+    };
+    let r = mon::guarded(|| {
+        let d = || minicbor::display(enc);
+        vec![
+            ("{:8}", format!("{:8}", d()), pad(None, 8, ' ', 0)),
+            ("{:>12}", format!("{:>12}", d()), pad(None, 12, ' ', 1)),
+            ("{:+}", format!("{:+}", d()), plain.to_string()),
+            ("{:.3}", format!("{:.3}", d()), pad(Some(3), 0, ' ', 0)),
+            ("{:08}", format!("{:08}", d()), pad(None, 8, ' ', 0)),
+            ("{:#}", format!("{:#}", d()), plain.to_string()),
+            ("{:*^9.2}", format!("{:*^9.2}", d()), pad(Some(2), 9, '*', 2)),
+            ("{:300}", format!("{:300}", d()), pad(None, 300, ' ', 0)),
+        ]
+    });
+    rep.eval();
+    match r {
+        Err(p) => fail(rep, "display|format-spec-panic", format!("formatting with a width / precision panicked: {}", p.message), enc),
+        Ok(rows) => {
+            for (spec, got, padded) in rows {
+                if got != plain && got != padded {
+                    fail(rep, "display|format-spec", format!("with {} the rendering is {:?}; with {{}} it is {:?}", spec, trunc(&got), trunc(plain)), enc);
+                    return;
+                }
+            }
+            rep.count("rendering independent of the caller's format spec");
         }
     }
 }
